@@ -8,8 +8,8 @@ POINT_FUNCS) of the library functions that read or write process-global state:
   RecursiveCompositeBaseToken.get_token_sets                                                 (lazy _TOKEN_SETS / _PROCESSED)
   CompositeBaseToken.get, AstBuilder.parse                                                   (the per-formula parser memory _FOUND)
 
-Reduction (sound for the property): a line of the three table functions is a scheduling point only while some table is
-not yet initialised (afterwards these functions only read immutable data, and reads commute); in CompositeBaseToken.get
+Reduction (sound for the property): a line of the table functions is a scheduling point only while the table of the class
+it works on is not yet complete (afterwards the function only reads immutable data, and reads commute); in CompositeBaseToken.get
 and AstBuilder.parse only the lines that touch _FOUND are points.
 
 Before every execution the token tables are put back into their cold state (checked once per worker against a freshly
@@ -127,25 +127,34 @@ class Scheduler:
         self.hang = False
         self.points_where = []
 
-    def _uninitialised(self):
-        from excel2pycl.src.tokens.composite_base_token import CompositeBaseToken
-        from excel2pycl.src.tokens.recursive_composite_base_token import RecursiveCompositeBaseToken
+    @staticmethod
+    def _uninitialised(cls_=None, code_name=None):
+        """Is the lazily built table that this line works on still incomplete?  (a table is complete once its last write
+        has happened: UndefinedToken is appended last, _PROCESSED is set last, the keyword table is assigned at once)"""
         from excel2pycl.src.tokens.undefined_token import UndefinedToken
-        # a table is complete once its last write has happened: UndefinedToken is appended last, _PROCESSED is set last
-        for c in (CompositeBaseToken, RecursiveCompositeBaseToken):
-            if UndefinedToken not in c.__dict__.get('_SUBCLASSES', ()):
-                return True
-        return any(not c.__dict__.get('_PROCESSED') for c in _RECURSIVE)
+        if code_name == '_remove_subclasses_lower_rank' or cls_ is None:
+            return True   # runs only while some table is being built
+        if code_name == 'get_token_sets':
+            return not cls_.__dict__.get('_PROCESSED')
+        own = cls_.__dict__.get('_SUBCLASSES')
+        if not own:
+            return True
+        from excel2pycl.src.tokens.regexp_base_token import KeywordRegexpBaseToken
+        if isinstance(cls_, type) and issubclass(cls_, KeywordRegexpBaseToken):
+            return False
+        return UndefinedToken not in own
 
-    def on_line(self, code, line):
+    def on_line(self, code, line, frame=None):
         me = self.tid_of.get(threading.get_ident())
         if me is None:
             return None
         if code in _MEMO_CODES:
             if line not in _MEMO_LINES[code]:
                 return None
-        elif not self._uninitialised():
-            return None
+        else:
+            cls_ = frame.f_locals.get('cls') if frame is not None and frame.f_code is code else None
+            if not self._uninitialised(cls_, code.co_name):
+                return None
         k = self.count
         self.count += 1
         if k in self.switch_at:
@@ -210,16 +219,24 @@ def install():
     def cb(code, line):
         s = _CURRENT[0]
         if s is not None:
-            return s.on_line(code, line)
+            return s.on_line(code, line, sys._getframe(1))
         return None
     mon.register_callback(TOOL, mon.events.LINE, cb)
     _INSTALLED = True
 
 
-def execute(jobs, first, switch_at):
-    """One execution from cold tables.  jobs: two workbook file objects/paths."""
+def execute(jobs, first, switch_at, cold=True):
+    """One execution from cold tables (or, cold=False, from tables that a completed translation has left behind: then
+    only the accesses to the parser memory are scheduling points).  jobs: two workbook file objects/paths."""
     install()
-    reset_cold()
+    if cold:
+        reset_cold()
+    else:
+        # warm tables: let ordinary translations of both workbooks build everything they need first
+        for j in jobs:
+            j.seek(0) if hasattr(j, 'seek') else None
+            D.Parser().disable_safety_check().set_excel_file_path(j).get_translation()
+            j.seek(0) if hasattr(j, 'seek') else None
     for j in jobs:
         if hasattr(j, 'seek'):
             j.seek(0)
